@@ -14,7 +14,9 @@
  *     adapters + libraries: reads at most in_size bytes from `in`, writes at
  *     most out_size bytes to `out`, advances *in_read / *out_written by
  *     exactly those counts, returns ERROR, OK, END or BUFFER_FULL;
- *     OK and END imply progress (consumed + produced > 0). Which status comes
+ *     OK and END imply progress (consumed + produced > 0); BUFFER_FULL is
+ *     returned only when the room (or, while flushing, the input) ran out.
+ *     Which status comes
  *     when is otherwise arbitrary - in particular a decoder may ask for more
  *     input (OK) although the source is exhausted (= truncated input).
  *     What the adapters really do is checked against the library contracts
@@ -179,8 +181,16 @@ static int c15_process_data(xfrm_stream_t *stream, const void *in,
 		return st;
 	}
 	VERIF_ASSUME(c <= in_size && p <= out_size);
+	/* 64-bit byte counters do not wrap (fewer than 2^64 bytes in total) */
+	VERIF_ASSUME(g_fed <= UINT64_MAX - c && g_opos <= UINT64_MAX - p);
 	if (st == XFRM_STREAM_OK || st == XFRM_STREAM_END)
 		VERIF_ASSUME(c > 0 || p > 0);
+	/* BUFFER_FULL means what it says: it stopped because the room ran out,
+	 * or - only when flushing - because the input did
+	 * (adapter_*.c: C15.adapter.buffer_full_meaning) */
+	if (st == XFRM_STREAM_BUFFER_FULL)
+		VERIF_ASSUME(p == out_size ||
+			     (flush_mode == XFRM_STREAM_FLUSH_FULL && c == in_size));
 #ifdef C15_COMPRESSOR
 	/* a compressor ends the stream only when told to, within a finite
 	 * number of calls ... */
